@@ -330,6 +330,13 @@ where
     where
         Sq: Data<Elem = Sd::Elem>,
     {
+        // the strategies check the shape of each sub-view, but they are never called for an empty `xs`
+        assert!(
+            buffer.shape()[1..] == self.data.shape()[1..],
+            "buffer has the wrong shape, expected trailing dimensions: {:?}, got: {:?}",
+            &self.data.shape()[1..],
+            &buffer.shape()[1..]
+        );
         Zip::from(xs)
             .and(buffer.axis_iter_mut(Axis(0)))
             .fold_while(Ok(()), |_, &x, buf| {
